@@ -677,7 +677,7 @@ fn run_history(case: &Value, dir: &str) -> Value {
 				h.flows.push(fl);
 			}
 			OP_RECV | OP_PAY => {
-				if f < h.flows.len() && h.flows[f].msg.is_some() {
+				if f < h.flows.len() && h.flows[f].msg.is_some() && h.flows[f].phase != 9 {
 					let inp = h.flows[f].msg.clone().unwrap();
 					let amount = inp.amount;
 					let r = guarded(|| {
@@ -699,6 +699,10 @@ fn run_history(case: &Value, dir: &str) -> Value {
 					});
 					step["res"] = json!(res_code(&r));
 					step["res_text"] = json!(res_text(&r));
+					if res_code(&r) == 4 {
+						// out of funds in this scenario: the flow cannot go on as generated
+						h.flows[f].phase = 9;
+					}
 					if let Ok(Ok(sl)) = r {
 						if code == OP_PAY {
 							if let Ok(c) = h.get_ctx(w, &sl) {
@@ -719,7 +723,7 @@ fn run_history(case: &Value, dir: &str) -> Value {
 				}
 			}
 			OP_FIN | OP_FININV => {
-				if f < h.flows.len() && h.flows[f].msg.is_some() {
+				if f < h.flows.len() && h.flows[f].msg.is_some() && h.flows[f].phase != 9 {
 					let inp = h.flows[f].msg.clone().unwrap();
 					// the context is deleted by a successful finalize: fetch it first
 					let before = h.get_ctx(w, &inp).ok();
@@ -737,6 +741,9 @@ fn run_history(case: &Value, dir: &str) -> Value {
 					});
 					step["res"] = json!(res_code(&r));
 					step["res_text"] = json!(res_text(&r));
+					if res_code(&r) == 4 {
+						h.flows[f].phase = 9;
+					}
 					step["ctx_after"] = json!(h.get_ctx(w, &inp).is_ok());
 					step["n_in"] = json!(inp.participant_data.len());
 					if let Ok(Ok(sl)) = r {
